@@ -473,6 +473,7 @@ type facts struct {
 	kinds      map[string]bool
 	isData     bool // undef, bool, int, float, string, arrays and string-keyed hashes of those
 	reserved   bool // a hash whose keys are all strings and that has the key __ptype: re-interpreted by the deserializer
+	ptHashes   [][]string // key kinds of every hash that has the key __ptype
 	ptypeStr   bool // the string __ptype occurs as a hash key somewhere
 	shared     bool // some identified object or de-dupable string occurs twice
 	nonStrKey  bool
@@ -520,6 +521,13 @@ func classify(n *node, f *facts, seen map[*node]bool, strs map[string]int) {
 		}
 		if all && pt {
 			f.reserved = true
+		}
+		if pt {
+			var ks []string
+			for i := 0; i < len(n.kids); i += 2 {
+				ks = append(ks, n.kids[i].kind)
+			}
+			f.ptHashes = append(f.ptHashes, ks)
 		}
 	}
 	for _, k := range n.kids {
@@ -843,6 +851,21 @@ func ser(c px.Context, o opts, cp caps, vs sx.Sexp) core.Result {
 	}
 	if x, y := expanded.String(), rec0.stack[0][0].String(); x != y {
 		return fail(out, "wrong-ref", "references expand to "+x+" but the reference-free stream is "+y)
+	}
+	// with rich_data=false non-string keys may be emitted as strings (String() of a rich key; every key when the
+	// consumer cannot do complex keys): a hash with the key __ptype then reaches the deserializer all-string-keyed too
+	if !o.rich {
+		for _, ks := range f.ptHashes {
+			all := true
+			for _, k := range ks {
+				if !(k == "s" || !cp.cplx || k == "l" || k == "sn" || k == "df" || (k == "x" && !cp.bin)) {
+					all = false
+				}
+			}
+			if all {
+				f.reserved = true
+			}
+		}
 	}
 	// round trip
 	claimed := o.rich || f.isData
